@@ -235,7 +235,13 @@ func fzParkedListener() string {
 	buf := make([]byte, 4<<20)
 	buf = buf[:runtime.Stack(buf, true)]
 	for _, g := range strings.Split(string(buf), "\n\n") {
-		if strings.Contains(g, "hashicorp/nodeenrollment") && strings.Contains(g, "InterceptingListener") && (strings.Contains(g, "sync.(*RWMutex)") || strings.Contains(g, "sync.(*Mutex).Lock")) {
+		inAccept := strings.Contains(g, "hashicorp/nodeenrollment") && strings.Contains(g, "InterceptingListener")
+		// (a) the handshake is parked on a lock; (b) the handshake is over (no handshake frame on the stack) and
+		// Accept sits in a read of application data from the peer: it waits for the peer's pleasure, which is
+		// not something Accept ever does with a connection
+		onLock := strings.Contains(g, "sync.(*RWMutex)") || strings.Contains(g, "sync.(*Mutex).Lock")
+		readingAfterHandshake := strings.Contains(g, "crypto/tls.(*Conn).Read(") && !strings.Contains(g, "andshake")
+		if inAccept && (onLock || readingAfterHandshake) {
 			if i := strings.Index(g, "\n"); i > 0 {
 				return g[:i]
 			}
@@ -303,7 +309,7 @@ func (w *fzWorld) runCase(c *engine.Ctx, fc fzCase) {
 	if werr != nil {
 		w.fatals, w.dead = 3, true
 		if head := fzParkedListener(); head != "" {
-			r.Violation("listener-stopped-answering", fmt.Sprintf("the listener never finished with a hostile connection of class %s: its handshake is parked on a lock (%s)", fc.Class, head), fc)
+			r.Violation("listener-stopped-answering", fmt.Sprintf("the listener never finished with a hostile connection of class %s: Accept is parked on a lock, or waits for the peer to send or hang up after the handshake (%s)", fc.Class, head), fc)
 			return
 		}
 		r.Inconclusive("watchdog while waiting for the server side of a hostile connection (" + fc.Class + ")")
